@@ -105,31 +105,74 @@ def run():
     return rep.finish(cands, replay_c12)
 
 
+_SWEEPS = {}
+
+
+def targeted_sweep(d, pre):
+    """programs around `pre` whose *measured* code size lands on and just below page boundaries (filler instruction sizes are measured by
+    compiling, then counts are solved for), on all four VM kinds, compiled in a child process; returns (vm, prog, response) of the first crash"""
+    key = pre.hex()
+    if key in _SWEEPS: return _SWEEPS[key]
+    EX = insn(0x95); tried = 0; hit = None
+    import math
+    fillers = [insn(0xb4, 0, 0, 0, 1), insn(0xbf, 1, 2), insn(0x95), lddw(1, 5), insn(0x84, 1), insn(0x07, 1, 0, 0, 1000), insn(0xb7, 6, 0, 0, 1), insn(0x0f, 8, 9)]
+    def comp(vm, prog):
+        return d.request(dict(op='compile', vm=vm, prog=prog.hex(), engine='jit', helpers=[], twice=False, isolate=True))
+    for vm in ('fixed', 'mbuff', 'raw', 'nodata'):
+        r0 = comp(vm, pre + EX); tried += 1
+        if r0.get('status') not in ('ok', 'err'): hit = (vm, pre + EX, r0); break
+        if r0.get('status') != 'ok' or not r0.get('code_len'): continue
+        sizes = []
+        for f in fillers:       # measured size of each filler instruction in this position
+            r = comp(vm, pre + f + EX); tried += 1
+            if r.get('status') not in ('ok', 'err'): hit = (vm, pre + f + EX, r); break
+            if r.get('status') == 'ok' and r.get('code_len', 0) > r0['code_len']: sizes.append((r['code_len'] - r0['code_len'], f))
+        if hit: break
+        pair = next(((x, y) for x in sizes for y in sizes if math.gcd(x[0], y[0]) == 1), None)
+        if pair is None: continue
+        (a, F1), (b, F3) = pair; r1 = r3 = r0
+        s0 = r0['code_len']
+        for page in (1, 2):
+            for delta in list(range(0, 41)) + list(range(-1, -41, -1)):      # on / below the boundary, and above it (a sizing pass that under-counts)
+                T = 4096 * page - delta
+                for j in range(0, a):
+                    rest = T - s0 - b * j
+                    if rest >= 0 and rest % a == 0:
+                        prog = pre + F1 * (rest // a) + F3 * j + EX
+                        if not ref.wf(prog)[0]: break
+                        r = comp(vm, prog); tried += 1
+                        if r.get('status') not in ('ok', 'err'): hit = (vm, prog, r)
+                        break
+                if hit: break
+            if hit: break
+        if hit: break
+    _SWEEPS[key] = (hit, tried)
+    return hit, tried
+
+
 def replay_c12(c):
     """part B candidates are native observations already.  Part A candidates (a solver counterexample about the two passes /
-    the buffer) are confirmed by a native sweep: programs built around the instruction of the counterexample whose code size
-    walks across page boundaries, compiled for every VM kind in a child process; a panic/abort confirms."""
+    the buffer) are confirmed by a targeted native sweep: code sizes on and just below page boundaries, first with filler only,
+    then around the instruction of the counterexample; a panic/abort confirms."""
     role = c['role']
     if not role.startswith(('jit-compile/', 'jit-new/')): return True, 'observed natively'
     d = Driver.get('dev', features=('std',)); m = c.get('model') or {}
-    F = insn(0xb4, 0, 0, 0, 1); EX = insn(0x95); pre = b''
+    pres = [b'']
     if m.get('opc') is not None:
         opc = m['opc']; k, _ = spec.classify(opc); rb = m.get('regbyte', 0); off = m.get('off', 0); imm = m.get('imm', 0)
         off = off - 0x10000 if off >= 0x8000 else off
         one = insn(opc, rb & 15, rb >> 4, 0 if k in ('ja', 'jcond') else off, imm if imm < 2**31 else imm - 2**32)
         if k == 'lddw': one += insn(0, 0, 0, 0, 0)
-        if k not in ('exit', 'call'): pre = one * 8
-    tried = 0
-    for vm in ('fixed', 'mbuff', 'raw', 'nodata'):
-        for n in list(range(0, 1400)):
-            prog = pre + F * n + EX
-            if not ref.wf(prog)[0]: break
-            r = d.request(dict(op='compile', vm=vm, prog=prog.hex(), engine='jit', helpers=[], twice=False, isolate=True)); tried += 1
-            if r.get('status') not in ('ok', 'err'):
-                c['replay'] = dict(vm=vm, prog=prog.hex() if len(prog) < 4000 else f'{pre.hex()} + {n} x {F.hex()} + {EX.hex()}', result=r)
-                c['detail'] = (c.get('detail') or '') + f' -- native: jit_compile of an accepted {len(prog)//8}-instruction program on the {vm} VM: {r.get("status")} {str(r.get("msg", ""))[:160]}'
-                return True, f'native sweep reproduced after {tried} compilations'
-    return False, f'native sweep of {tried} compilations (code sizes across two page boundaries, four VM kinds) shows no panic'
+        if k not in ('exit', 'call') and ref.wf(one * 8 + insn(0x95))[0]: pres.append(one * 8)
+    total = 0
+    for pre in pres:
+        hit, tried = targeted_sweep(d, pre); total += tried
+        if hit:
+            vm, prog, r = hit
+            c['replay'] = dict(vm=vm, prog=prog.hex() if len(prog) < 4000 else f'{pre.hex()} + filler ({len(prog)//8} instructions)', result=r)
+            c['detail'] = (c.get('detail') or '') + f' -- native: jit_compile of an accepted {len(prog)//8}-instruction program on the {vm} VM: {r.get("status")} {str(r.get("msg", ""))[:160]}'
+            return True, f'targeted native sweep reproduced ({total} compilations)'
+    return False, f'targeted native sweep of {total} compilations (code sizes within 40 bytes of two page boundaries, four VM kinds) shows no panic'
 
 
 def replay(path):
